@@ -8,7 +8,7 @@
 (* sequence; any other wrong answer stays a VIOLATION.                            *)
 EXTENDS RankSelect, TLC
 
-KnownIds == {"C04-KF9"}
+KnownIds == {}
 
 Seq0(n) == [j \in 1..n |-> j - 1]
 
